@@ -77,6 +77,8 @@ def check_case(inputs, cmps, job, registry):
         return None, "nested-non-tree"
     try:
         ns = real.load_module(text)
+    except stages.TooCostly:
+        raise
     except Exception as e:  # noqa
         return {"kind": "module-does-not-load", "observed": f"{type(e).__name__}: {e}", "text": text[:3000]}, None
     fw = job["fw"]
@@ -98,6 +100,8 @@ def check_case(inputs, cmps, job, registry):
             acc.problems = []
             try:
                 ok = acc.accepts_obj(cls, s, "$")
+            except stages.TooCostly:
+                raise
             except Exception as e:  # noqa
                 return {"kind": "annotation-unresolvable", "observed": f"{type(e).__name__}: {e}", "sample": s,
                         "text": text[:3000]}, None
@@ -108,6 +112,8 @@ def check_case(inputs, cmps, job, registry):
             for s in samples:
                 try:
                     real.pydantic_parse(ns, cls_name, s)
+                except stages.TooCostly:
+                    raise
                 except Exception as e:  # noqa
                     return {"kind": "pydantic-rejects-sample", "sample": s, "observed": f"{type(e).__name__}: {str(e)[:500]}",
                             "text": text[:4000]}, None
@@ -136,7 +142,7 @@ def falsify(ctx):
         job["preamble"] = None
         try:
             hit, skip = check_case(inputs, cmps, job, registry)
-        except ZeroDivisionError:
+        except (ZeroDivisionError, stages.TooCostly):
             ctx.count("skip:zero-division")
             continue
         except Exception as e:  # noqa
@@ -158,6 +164,8 @@ def replay(ctx, hit):
     inputs = [tuple(x) for x in hit["input"]]
     try:
         h, _ = check_case(inputs, cmps_from(hit["cmps"]), hit["job"], stages.make_registry())
+    except stages.TooCostly:
+        raise
     except Exception as e:  # noqa
         h = {"kind": "pipeline-raises", "observed": f"{type(e).__name__}: {e}"}
     return h
